@@ -47,6 +47,7 @@ const PRE: u64 = 5;
 const ACC: u64 = 6;
 const LP: u64 = 7;
 const CLONE: u64 = 8; // trie = trie.clone(); the model treats it as a no-op (code 9)
+const SHRINK: u64 = 10; // shrink_to_fit(): housekeeping that must not change the set; the models have no such step (code 9)
 
 #[derive(Clone, Copy, PartialEq, Debug)]
 enum Kind { Patricia, Sparse, Louds, CritBit, DoubleArray, Dawg }
@@ -67,6 +68,8 @@ trait Tr {
     fn lp(&self, _q: &[u8]) -> Option<Option<usize>> { None }
     /// replace self by its Clone (ZiporaTrie::clone re-inserts keys() into a fresh trie)
     fn reclone(&mut self) -> bool { false }
+    /// shrink_to_fit; false = the type has none
+    fn shrink(&mut self) -> bool { false }
 }
 
 struct Z(ZiporaTrie);
@@ -81,6 +84,7 @@ impl Tr for Z {
     fn lookup_some(&self, k: &[u8]) -> Option<bool> { Some(Trie::lookup(&self.0, k).is_some()) }
     fn lp(&self, q: &[u8]) -> Option<Option<usize>> { Some(self.0.longest_prefix(q)) }
     fn reclone(&mut self) -> bool { self.0 = self.0.clone(); true }
+    fn shrink(&mut self) -> bool { self.0.shrink_to_fit(); true }
 }
 /// ZiporaTrie driven through the `Trie` trait only (insert returns a state id).
 struct ZT(ZiporaTrie);
@@ -94,6 +98,7 @@ impl Tr for ZT {
     fn accepts(&self, k: &[u8]) -> Option<bool> { Some(self.0.accepts(k)) }
     fn lookup_some(&self, k: &[u8]) -> Option<bool> { Some(Trie::lookup(&self.0, k).is_some()) }
     fn lp(&self, q: &[u8]) -> Option<Option<usize>> { Some(self.0.longest_prefix(q)) }
+    fn shrink(&mut self) -> bool { self.0.shrink_to_fit(); true }
 }
 macro_rules! wrapper_tr {
     ($name:ident, $t:ty) => {
@@ -108,7 +113,16 @@ macro_rules! wrapper_tr {
         }
     };
 }
-wrapper_tr!(WDa, DoubleArrayTrie);
+struct WDa(DoubleArrayTrie);
+impl Tr for WDa {
+    fn insert(&mut self, k: &[u8]) -> Result<(), String> { self.0.insert(k).map_err(|e| format!("{:?}", e)) }
+    fn contains(&self, k: &[u8]) -> bool { self.0.contains(k) }
+    fn len(&self) -> usize { self.0.len() }
+    fn accepts(&self, k: &[u8]) -> Option<bool> { Some(self.0.accepts(k)) }
+    fn lookup_some(&self, k: &[u8]) -> Option<bool> { Some(self.0.lookup(k).is_some()) }
+    fn lp(&self, q: &[u8]) -> Option<Option<usize>> { Some(self.0.longest_prefix(q)) }
+    fn shrink(&mut self) -> bool { self.0.shrink_to_fit(); true }
+}
 wrapper_tr!(WNl, NestedLoudsTrie<RankSelectInterleaved256>);
 wrapper_tr!(WCs, CompressedSparseTrie);
 /// second field: Some(keys so far) = the static use, the automaton is rebuilt by build_from_keys (duplicates included) on every insert
@@ -381,10 +395,16 @@ fn history(cx: &mut Ctx, cell: &CellDef, ops: &[Op], force_coq: bool, allow_coq:
                     Ok(done) => { obs.push("[]".into()); if !(done && (kind == Kind::Patricia || kind == Kind::Sparse || kind == Kind::DoubleArray)) { unavailable.push(step); } }
                 }
             }
+            SHRINK => {
+                match guarded(|| t.shrink()) {
+                    Err(p) => { fail!(None, "step {}: shrink_to_fit panicked: {}", step, p); coq_ok = false; break; }
+                    Ok(done) => { obs.push("[]".into()); unavailable.push(step); if done { cx.sum.dist("shrink_to_fit_ops"); } }
+                }
+            }
             _ => { obs.push("[]".into()); }
         }
         // after every mutation: len and membership of every key of the history
-        if (*op <= REM || *op == CLONE) && !failed {
+        if (*op <= REM || *op == CLONE || *op == SHRINK) && !failed {
             match guarded(|| (t.len(), pool.iter().map(|q| t.contains(q)).collect::<Vec<bool>>())) {
                 Err(p) => { fail!(None, "step {}: len/contains panicked after the mutation: {}", step, p); coq_ok = false; }
                 Ok((n, bs)) => {
@@ -499,7 +519,7 @@ fn gen_history(r: &mut Rng, long: bool) -> Vec<Op> {
                 ops.push((REM, k));
             }
             13..=14 => ops.push((HAS, k)),
-            15 => ops.push((if r.chance(1, 3) { CLONE } else { LEN }, vec![])),
+            15 => ops.push((match r.below(3) { 0 => CLONE, 1 => SHRINK, _ => LEN }, vec![])),
             16 => ops.push((if r.chance(1, 2) { KEYS } else { PRE }, if k.len() > 3 { k[..r.below(4) as usize].to_vec() } else { k })),
             17 => ops.push((ACC, k)),
             _ => { let mut q = k; if r.chance(1, 2) { q.push(*r.pick(&[0u8, 0xFF, b'a'])); if r.chance(1, 2) { q.push(r.next() as u8); } } ops.push((LP, q)); }
